@@ -71,12 +71,26 @@ static void *bp_reader(void *a)
 	vrt_note_set(N_REGTID(vrt_tid()), (unsigned long)pthread_self());
 	vrt_note_inc(N_INSEC);
 	(void)LD(x);
-	if (hold)
+	if (hold == 1)
 		vrt_await(go_pred, NULL);	/* inside the section across the fork (parent side only resumes) */
+	else if (hold == 2) {
+		vrt_yield();			/* inside the section for a while, leaves it on its own (a concurrent grace period waits) */
+		vrt_yield();
+	}
 	rcu_read_unlock();
-	if (!hold)
+	if (hold != 1)
 		vrt_await(go_pred, NULL);	/* registered, outside any section */
 	vrt_note_set(N_REGTID(vrt_tid()), 0);
+	return NULL;
+}
+
+/* bp: another thread may be running a grace period when the fork handlers are called */
+static void *bp_updater(void *a)
+{
+	(void)a;
+	ST(x, 2);
+	synchronize_rcu();
+	vrt_note_set(33, 1);
 	return NULL;
 }
 
@@ -165,7 +179,7 @@ static void run_fork(void)
 	int helpers = (int)vrt_param("helpers", 0), nreaders = (int)vrt_param("readers", 0), hold = (int)vrt_param("hold", 0);
 	int lfht = (int)vrt_param("lfht", 0), pre_lfht = (int)vrt_param("pre_lfht", 0), ncb = (int)vrt_param("ncb", 2), i;
 	struct call_rcu_data *crdp = NULL;
-	pthread_t rd[3];
+	pthread_t rd[3], upd;
 	pid_t pid;
 
 	rcu_register_thread();
@@ -174,11 +188,13 @@ static void run_fork(void)
 	rcu_read_unlock();
 	vrt_note_set(N_REGTID(0), (unsigned long)pthread_self());
 	for (i = 0; i < nreaders; i++)
-		pthread_create(&rd[i], NULL, bp_reader, (void *)(long)(hold && i == 0));
+		pthread_create(&rd[i], NULL, bp_reader, (void *)(long)(i == 0 ? hold : 0));
 	if (nreaders)
 		vrt_await(insec_pred, (void *)(long)nreaders);
+	if (vrt_param("updater", 0))
+		pthread_create(&upd, NULL, bp_updater, NULL);
 #else
-	(void)nreaders; (void)hold; (void)rd;
+	(void)nreaders; (void)hold; (void)rd; (void)upd;
 #endif
 	if (helpers & 1) {
 		crdp = create_call_rcu_data(0, -1);
@@ -244,6 +260,8 @@ static void run_fork(void)
 #ifdef FLAVOR_BP
 		for (i = 0; i < nreaders; i++)
 			pthread_join(rd[i], NULL);
+		if (vrt_param("updater", 0))
+			pthread_join(upd, NULL);
 #endif
 		if (crdp) {
 			set_thread_call_rcu_data(NULL);
